@@ -32,6 +32,7 @@ struct Call {
 struct Scripted {
     ch: Ch,
     calls: RefCell<Vec<Call>>,
+    algo: rpm::signature::AlgorithmType,
 }
 
 impl std::fmt::Debug for Scripted {
@@ -54,9 +55,11 @@ impl rpm::signature::Verifying for Scripted {
         }
     }
     fn algorithm(&self) -> rpm::signature::AlgorithmType {
-        rpm::signature::AlgorithmType::RSA
+        self.algo
     }
 }
+
+const ALGOS: [rpm::signature::AlgorithmType; 3] = [rpm::signature::AlgorithmType::RSA, rpm::signature::AlgorithmType::EdDSA, rpm::signature::AlgorithmType::ECDSA];
 
 fn b64(b: &[u8]) -> String {
     base64::engine::general_purpose::STANDARD.encode(b)
@@ -121,10 +124,10 @@ fn shapes_sweep(_ctx: &Ctx) -> Sweep {
     let rsa = legacy_variants(b"\x10rsa-R");
     let dsa = legacy_variants(b"\x20dsa-D");
     let pgp = legacy_variants(b"\x30pgp-P");
-    let rad = [og.len() as u64, 5, 5, 5, 3, 3, 3, 3, 2];
+    let rad = [og.len() as u64, 5, 5, 5, 3, 3, 3, 3, 2, 2, 3];
     let n = product(&rad);
     let rule = format!(
-        "{} signature-header shapes: OpenPGP tag ∈ {{absent; string array with 0–3 items (good base64, malformed base64, empty string); binary / string / i18n type}} × RSA, DSA, PGP tags ∈ {{absent; binary with 0, 1, 6 bytes; string type}} × SHA-256, SHA-1, MD5, payload digest ∈ {{absent, correct, wrong}} × payload ∈ {{empty, 5 bytes}}; for each shape ALL accept/reject answer sequences of a scripted verifier are explored (engine C, unbounded deviations). Oracle: Ok ⇒ ≥ 1 call ∧ every answer accept ∧ each call's data = canonical main header (header‖payload for the PGP tag) ∧ its signature bytes = the stored item ∧ all recorded digests match. non-trivial = execution that consulted the verifier",
+        "{} signature-header shapes: OpenPGP tag ∈ {{absent; string array with 0–3 items (good base64, malformed base64, empty string); binary / string / i18n type}} × RSA, DSA, PGP tags ∈ {{absent; binary with 0, 1, 6 bytes; string type}} × SHA-256, SHA-1, MD5, payload digest ∈ {{absent, correct, wrong}} × payload ∈ {{empty, 5 bytes}} × signature index sorted / reversed × the verifier's algorithm() answer ∈ {{RSA, EdDSA, ECDSA}}; for each shape ALL accept/reject answer sequences of a scripted verifier are explored (engine C, unbounded deviations). Oracle: Ok ⇒ ≥ 1 call ∧ every answer accept ∧ each call's data = canonical main header (header‖payload for the PGP tag) ∧ its signature bytes = the stored item ∧ all recorded digests match. non-trivial = execution that consulted the verifier",
         n
     );
     Sweep::new("scripted-verifier", rule, n, move |i, acc| {
@@ -146,6 +149,8 @@ fn shapes_sweep(_ctx: &Ctx) -> Sweep {
             _ => D::Wrong(1),
         };
         let plan = DigestPlan { sha256: dg(d[4]), sha1: dg(d[5]), md5: dg(d[6]), payload: dg(d[7]), algo: 8 };
+        parts.order = (d[9] as u8, 0);
+        let valgo = ALGOS[d[10] as usize];
         let (x, lay) = with_digests(&parts, &plan);
         let digests_ok = [d[4], d[5], d[6], d[7]].iter().all(|v| *v != 2);
         let hdr_bytes = x[lay.hdr_off..lay.payload_off].to_vec();
@@ -174,12 +179,12 @@ fn shapes_sweep(_ctx: &Ctx) -> Sweep {
             }
         }
         let describe = || json!({"openpgp": oname, "rsa": rsa[d[1] as usize].0, "dsa": dsa[d[2] as usize].0, "pgp": pgp[d[3] as usize].0,
-                                 "digests(sha256,sha1,md5,payload)": [d[4], d[5], d[6], d[7]], "payload_len": payload.len(), "bytes_hex": vlib::hex(&x)});
+                                 "digests(sha256,sha1,md5,payload)": [d[4], d[5], d[6], d[7]], "payload_len": payload.len(), "signature_index_reversed": d[9] == 1, "verifier_algorithm": format!("{:?}", valgo), "bytes_hex": vlib::hex(&x)});
         let a: &mut Acc = acc;
         let st = explore_seq(
             usize::MAX,
             |ch| {
-                let sv = Scripted { ch: ch.clone(), calls: RefCell::new(vec![]) };
+                let sv = Scripted { ch: ch.clone(), calls: RefCell::new(vec![]), algo: valgo };
                 let r = catch(|| pkg.verify_signature(&sv).map_err(|e| err_kind(&e)));
                 (r, sv.calls.into_inner())
             },
@@ -420,7 +425,8 @@ pub fn replay(ctx: &Ctx, v: &Value) -> i32 {
     if let Some(script) = c["verifier_answers(0=accept,1=reject)"].as_array() {
         let pre: Vec<u32> = script.iter().map(|x| x.as_u64().unwrap_or(0) as u32).collect();
         let ch = vlib::explore::Chooser::new(pre);
-        let sv = Scripted { ch: ch.clone(), calls: RefCell::new(vec![]) };
+        let algo = ALGOS.iter().copied().find(|a| Some(format!("{:?}", a)) == c["verifier_algorithm"].as_str().map(|s| s.to_string())).unwrap_or(rpm::signature::AlgorithmType::RSA);
+        let sv = Scripted { ch: ch.clone(), calls: RefCell::new(vec![]), algo };
         let r = p.verify_signature(&sv);
         println!("verify_signature = {:?}; verifier calls:", r.as_ref().map_err(|e| e.to_string()));
         for c in sv.calls.borrow().iter() {
